@@ -50,7 +50,8 @@ Record gotype := GoType { gt_name : bytes; gt_kind : N; gt_fields : list bytes; 
 (* what the selected templates emit at all (from the option set; decides which table entries
    must be found declared) *)
 Record tflags := TFlags {
-  tf_processor : bool;      (* client / processor / args / result code is generated (not template=slim, not no_processor) *)
+  tf_processor : bool;      (* <Svc>Client / <Svc>Processor are generated (not slim, not no_processor, not no_default_serdes) *)
+  tf_synth : bool;          (* the <Svc><Func>Args / Result structs are generated (not slim) *)
   tf_serdes : bool;         (* Read / Write / ReadFieldN / writeFieldN are generated *)
   tf_slim : bool }.         (* template=slim: only types, constructors, getters, setters, String *)
 
@@ -113,8 +114,8 @@ Definition global_declared (tf : tflags) (e : entry) : bool :=
   is_globalish e &&
   match e_kind e with
   | KService | KEnum | KEnumValue | KTypedef | KConstant => true
-  | KStructType | KNew => match e_owner e with TSynth _ _ _ => tf_processor tf | _ => true end
-  | KIds => match e_owner e with TSynth _ _ _ => tf_processor tf && tf_serdes tf | _ => tf_serdes tf end
+  | KStructType | KNew => match e_owner e with TSynth _ _ _ => tf_synth tf | _ => true end
+  | KIds => match e_owner e with TSynth _ _ _ => tf_synth tf && negb (tf_slim tf) | _ => negb (tf_slim tf) end
   | KClient | KProcessor => tf_processor tf
   | _ => false   (* KTypedefNew: New<Alias> exists only for typedefs of local struct-likes; never required *)
   end.
@@ -179,7 +180,7 @@ Definition scope_file_diff (ft : features) (tf : tflags) (es : list entry) (iden
   flat_map (fun t =>
      let tn := name_owned es t KStructType in
      let synth := match t with TSynth _ _ _ => true | _ => false end in
-     if synth && negb (tf_processor tf) then [] else
+     if synth && negb (tf_synth tf) then [] else
      match find_type types tn with
      | None => [(13%N, [tn])]
      | Some gt =>
